@@ -18,7 +18,7 @@ Definition winv (s : wrk) : Prop :=
       safe (rkey r) (r_sv0 r) (k_committed s (rkey r)) (r_prog r) (r_touched r) (cview (k_st s) (rkey r)) (sview (k_st s) (rkey r))
       /\ done_res (r_prog r) = None
       /\ (forall x, x <> rkey r -> k_committed s x = sview (k_st s) x
-                                   /\ forall v, cview (k_st s) x = Some v -> sview (k_st s) x = Some v)
+                                   /\ forall v, cview (k_st s) x = Some v -> sview (k_st s) x = v)
   end.
 
 Lemma handler_not_done o : done_res (handler o) = None.
@@ -72,7 +72,7 @@ Proof.
   destruct H as (Hsafe & Hnd & Hoth).
   destruct (mstep (r_prog r) (k_st s) (r_fs r)) as [[[[p' st'] fs'] e]|] eqn:Em; [|discriminate].
   destruct (safe_mstep _ _ _ _ _ _ _ _ _ _ _ Hsafe Em) as (Hs1 & Hk & _ & Hf & Hsh & _).
-  assert (Hoth' : forall x, x <> rkey r -> k_committed s x = sview st' x /\ forall v, cview st' x = Some v -> sview st' x = Some v).
+  assert (Hoth' : forall x, x <> rkey r -> k_committed s x = sview st' x /\ forall v, cview st' x = Some v -> sview st' x = v).
   { intros x Hx. destruct (Hoth x Hx) as [A B]. unfold sview in *. rewrite (Hf x Hx). split; [exact A|].
     intros v Hv. apply B. apply (Hsh x v Hx Hv). }
   destruct (done_res p') as [x|] eqn:Ed.
@@ -131,7 +131,7 @@ Qed.
 Definition in_progress (s : wrk) (k : Z) : Prop := exists r, k_cur s = Some r /\ rkey r = k.
 
 Lemma winv_coherent s k v : winv s -> cview (k_st s) k = Some v ->
-  sview (k_st s) k = Some v \/ (in_progress s k /\ k_committed s k = Some v).
+  sview (k_st s) k = v \/ (in_progress s k /\ k_committed s k = v).
 Proof.
   unfold winv. intros H Hc. destruct (k_cur s) as [r|] eqn:E.
   - destruct H as (Hs & _ & Ho). destruct (Z.eq_dec k (rkey r)) as [->|Hne].
@@ -144,7 +144,7 @@ Qed.
    that key is in progress - the value the store held after the last completed operation on the key *)
 Theorem sched_coherent c deep ls g tr k v : grun c deep (minit c) ls = Some (g, tr) ->
   mcache_at c g k = Some v ->
-  mstore_at c g k = Some v \/ (in_progress (g (loc_of c k)) k /\ mcommitted_at c g k = Some v).
+  mstore_at c g k = v \/ (in_progress (g (loc_of c k)) k /\ mcommitted_at c g k = v).
 Proof.
   intros Hr Hc. pose proof (sched_inv c deep ls _ _ _ (minit_inv c) Hr (loc_of c k)) as Hw.
   apply (winv_coherent _ k v Hw). exact Hc.
@@ -153,7 +153,7 @@ Qed.
 (* between operations on the key the two agree outright, and the store is what the last completed operation left *)
 Theorem sched_coherent_idle c deep ls g tr k : grun c deep (minit c) ls = Some (g, tr) ->
   ~ in_progress (g (loc_of c k)) k ->
-  mcommitted_at c g k = mstore_at c g k /\ (forall v, mcache_at c g k = Some v -> mstore_at c g k = Some v).
+  mcommitted_at c g k = mstore_at c g k /\ (forall v, mcache_at c g k = Some v -> mstore_at c g k = v).
 Proof.
   intros Hr Hn. pose proof (sched_inv c deep ls _ _ _ (minit_inv c) Hr (loc_of c k)) as Hw.
   unfold mcommitted_at, mstore_at, mcache_at. unfold winv in Hw. destruct (k_cur (g (loc_of c k))) as [r|] eqn:E.
@@ -167,7 +167,7 @@ Qed.
 Theorem sched_fast_get c deep ls g tr j g' v : grun c deep (minit c) ls = Some (g, tr) ->
   gstep c deep g (GCall j) = Some (g', AFast v) ->
   exists k, j_op j = OGet k /\
-    (mstore_at c g k = Some v \/ (in_progress (g (loc_of c k)) k /\ mcommitted_at c g k = Some v)).
+    (mstore_at c g k = v \/ (in_progress (g (loc_of c k)) k /\ mcommitted_at c g k = v)).
 Proof.
   intros Hr Hs. cbn [gstep] in Hs. destruct (loc_of c (key_of (j_op j)) <? 0); [inversion Hs|].
   destruct (wcall deep (g (loc_of c (key_of (j_op j)))) j) as [s' a'] eqn:Ew. inversion Hs; subst; clear Hs.
